@@ -409,7 +409,22 @@ ROTATIONS = {
     # They leave only the general (Hermitian, particle-exchange) 4-fold symmetry g_pqrs = g_qpsr = conj(g_srqp).
     "phase": lambda n: ([[(1, 1j, -1, -1j)[p % 4] if p == q else 0 for q in range(n)] for p in range(n)], 0),
     "hadamard-phase": lambda n: ([[1, 1j], [1, -1j]], 1) if n == 2 else None,
+    # sqrt(SWAP)-like mixing of orbitals 0 and 1, U = [[1+i, 1-i], [1-i, 1+i]] / 2 (third orbital: phase i): the rotated
+    # pair-hopping amplitudes g'[i,i,j,j] and the one-body part are GENUINELY complex (the two rotations above only give
+    # real pair hopping: conj(u_i)^2 u_j^2 = +-1)
+    "sqrt-swap": lambda n: ([[1 + 1j, 1 - 1j] + [0] * (n - 2), [1 - 1j, 1 + 1j] + [0] * (n - 2)] +
+                            [[0, 0] + [2j if q == p else 0 for q in range(2, n)] for p in range(2, n)], 2),
 }
+
+
+def complex_content(ints):
+    """(has complex pair-hopping amplitude, has complex one-body element) of a corpus entry"""
+    if not ints.get("rot"):
+        return False, False
+    h2, g2 = rotated_tensors(ints)
+    n = ints["nmo"]
+    return (any(abs(complex(g2[i][i][j][j]).imag) > 0 for i in range(n) for j in range(n) if i != j),
+            any(abs(complex(h2[i][j]).imag) > 0 for i in range(n) for j in range(n)))
 
 
 def rotated_tensors(ints):
@@ -449,20 +464,49 @@ def hamiltonian_from_ints(ints):
     return fsum(items)
 
 
+HCB_STEPS = ("second-encoding", "after-iadd", "after-imul", "after-isub")
+
+
+def hcb_history(chk, cfg, ints, other, upto=None):
+    """one FermionOperator object: encode, encode again, += other Hamiltonian, encode, *= 2, encode, -= other, encode.
+    Yields (step, image, operator held by the object at that moment)."""
+    from tangelo.toolboxes.qubit_mappings.mapping_transform import fermion_to_qubit_mapping
+    nmo = ints["nmo"]
+    out = []
+
+    def run():
+        H = hamiltonian_from_ints(ints)
+        K = hamiltonian_from_ints(other)
+        fermion_to_qubit_mapping(H, "HCB")
+        for step in HCB_STEPS:
+            if step == "after-iadd":
+                H += K
+            elif step == "after-imul":
+                H *= 2
+            elif step == "after-isub":
+                H -= K
+            q = fermion_to_qubit_mapping(H, "HCB")
+            out.append((step, qubit_op_to_json(q, nmo, M), fop_json(H)))
+        return True
+    guarded(chk, cfg, {"class": "hcb-history", "ints": ints, "other": other}, run)
+    return out
+
+
 def compression_config(B, rng, quick):
     from tangelo.toolboxes.qubit_mappings.mapping_transform import fermion_to_qubit_mapping
     from tangelo.toolboxes.qubit_mappings.combinatorial import combinatorial
     chk = B.chk
     plan = [(2, 12 if quick else 40), (3, 3 if quick else 12)]
+    prev_ints = None
     for nmo, count in plan:
         for x in range(count):
             c0, h, g = rand_integrals(rng, nmo)
             # every third entry (every second for 2 orbitals) is rotated to complex, only 4-fold symmetric integrals
             rot = None
             if nmo == 2 and x % 2 == 1:
-                rot = "hadamard-phase" if x % 4 == 1 else "phase"
-            elif nmo == 3 and x % 3 == 2:
-                rot = "phase"
+                rot = ("sqrt-swap", "hadamard-phase", "sqrt-swap", "phase")[(x // 2) % 4]
+            elif nmo == 3 and x % 3 != 0:
+                rot = "sqrt-swap" if x % 3 == 1 else "phase"
             ints = {"nmo": nmo, "c0": c0, "h": h, "g": g, "rot": rot}
             H = hamiltonian_from_ints(ints)
             fj = fop_json(H)
@@ -476,6 +520,15 @@ def compression_config(B, rng, quick):
             img = guarded(chk, cfg, {"class": "hcb", "ints": ints}, hcb)
             if img is not None:
                 B.rec(recs, cfg, "hcb", {"class": "hcb", "ints": ints}, f=fj, img=img, nmo=nmo)
+            cc = complex_content(ints)
+            B.complex_pair_hopping = getattr(B, "complex_pair_hopping", 0) + int(cc[0])
+            B.complex_one_body = getattr(B, "complex_one_body", 0) + int(cc[1])
+            # operators are objects (with caches): the SAME object encoded again, then changed by in-place arithmetic
+            # and encoded again - every image must belong to the operator the object holds at that moment
+            if prev_ints is not None and prev_ints["nmo"] == nmo:
+                for step, img2, fj2 in hcb_history(chk, cfg, ints, prev_ints):
+                    B.rec(recs, cfg, "hcb", {"class": "hcb-history", "ints": ints, "other": prev_ints, "step": step}, f=fj2, img=img2, nmo=nmo)
+            prev_ints = ints
             B.add_config(cfg, [], recs)
             # --- combinatorial: every sector of dimension >= 2 (thorough) / a seeded selection (quick)
             sectors = [(na, nb) for na in range(nmo + 1) for nb in range(nmo + 1)]
@@ -645,6 +698,10 @@ def run(chk):
              kinds=sorted(set(expect.values())))
     if wrong:
         raise tlc.TLCError("binding failure: corrupted records accepted: %s" % wrong[:5])
+    chk.part("corpus", hamiltonians_with_complex_pair_hopping=getattr(B, "complex_pair_hopping", 0),
+             hamiltonians_with_complex_one_body=getattr(B, "complex_one_body", 0))
+    if getattr(B, "complex_pair_hopping", 0) == 0 or getattr(B, "complex_one_body", 0) == 0:
+        raise tlc.TLCError("the HCB/combinatorial corpus contains no genuinely complex Hamiltonian")
     chk.part("V", jobs=len(B.jobs), records=len(B.meta), failing=bad_by,
              by_kind={"%s:%s" % k: v for k, v in sorted(B.counts.items())})
     some = [B.jobs[0]["recs"][0], B.jobs[len(B.jobs) // 2]["recs"][0], B.jobs[-1]["recs"][0]]
@@ -684,7 +741,13 @@ def replay(chk, rec):
             ints = how["ints"]
             H = hamiltonian_from_ints(ints)
             try:
-                if how["class"] == "hcb":
+                if how["class"] == "hcb-history":
+                    c3 = check.Check("C03", ["quick"])
+                    c3.known = []
+                    hcb_history(c3, Cfg("HCB", 2 * ints["nmo"], False), ints, how["other"])
+                    if c3.violations:
+                        raise RuntimeError(c3.violations[0][1])
+                elif how["class"] == "hcb":
                     from tangelo.toolboxes.qubit_mappings.mapping_transform import fermion_to_qubit_mapping
                     fermion_to_qubit_mapping(H, "HCB")
                 else:
@@ -730,7 +793,16 @@ def replay(chk, rec):
         ints = m["how"]["ints"]
         H = hamiltonian_from_ints(ints)
         rr["f"] = fop_json(H)
-        if rr["k"] == "hcb":
+        if m["how"].get("class") == "hcb-history":
+            c3 = check.Check("C03", ["quick"])
+            c3.known = []
+            steps = hcb_history(c3, Cfg("HCB", 2 * ints["nmo"], False), ints, m["how"]["other"])
+            got = [x for x in steps if x[0] == m["how"]["step"]]
+            if c3.violations or not got:
+                print("exception reproduced:", c3.violations[:1])
+                return False
+            rr["img"], rr["f"] = got[0][1], got[0][2]
+        elif rr["k"] == "hcb":
             rr["img"] = qubit_op_to_json(fermion_to_qubit_mapping(H, "HCB"), rr["nmo"], M)
         else:
             ne = m["how"]["n_electrons"]
